@@ -131,6 +131,9 @@ def systematic_resample(log_weights: jnp.ndarray, n_samples: int) -> jnp.ndarray
     u = uniform.sample(0.0, 1.0)
     positions = (jnp.arange(n_samples) + u) / n_samples
     cumsum = jnp.cumsum(weights)
+    # In float32 the cumulative sum can end a few ulps below 1, leaving the last
+    # pointers without an owner; rescale so that its last entry is exactly 1.
+    cumsum = cumsum / cumsum[-1]
 
     indices = jnp.searchsorted(cumsum, positions)
     return indices
